@@ -1,5 +1,194 @@
-(** C12 — property theorems (statements only; proofs are in C12/Proofs.v). *)
+(** C12 — property theorems (statements only; proofs are in C12/Proofs.v).
+
+    Every statement is about the executable model of C12/Model.v, whose
+    operations ([apply_op]) are the ones the correspondence check compares with
+    the real [BackendMap] on every run. *)
 From Coq Require Import List Arith ZArith NArith Bool Lia.
 From SV Require Import C12.Model C12.Proofs.
 Import ListNotations.
 Open Scope N_scope.
+
+(** 1. Whatever the history (any sequence of add / re-add / remove, health
+    results, failures, successes, forced retry states, clock advances,
+    open/close, policy changes, earlier selections, any oracle data), and
+    whatever the selection (cluster, key or no key, any of the policies incl.
+    Random / PowerOfTwo for every draw), every backend the selection can return
+    is in that cluster's list now, is [Normal], and can open — or nobody in
+    the list can open and it passes the documented fail-open filter
+    ([Normal] and back-off OKAY). *)
+Theorem selected_is_eligible :
+  forall (ops : list op) (c : nat) (key : option N) (h : nat),
+    let s := run_ops init ops in
+    In h (picks (snd (select s c key))) ->
+    In h (c_list (cget s c)) /\
+    b_status (bk s h) = Normal /\
+    (can_open (s_now s) (bk s h) = true \/
+     ((forall h', In h' (c_list (cget s c)) -> can_open (s_now s) (bk s h') = false) /\
+      fail_open_ok (s_now s) (bk s h) = true)).
+Proof. intros ops c key h s H. exact (selected_is_eligible_lemma s c key h H). Qed.
+
+(** the same for every state, reachable or not (the cascade filters on the
+    current state only, so no invariant of the history is needed) *)
+Theorem selected_is_eligible_any_state :
+  forall (s : state) (c : nat) (key : option N) (h : nat),
+    In h (picks (snd (select s c key))) -> eligible s (c_list (cget s c)) h.
+Proof. exact selected_is_eligible_lemma. Qed.
+
+(** 2. A backup that can open is only returned when no primary of the cluster can. *)
+Theorem backup_only_when_no_primary :
+  forall (ops : list op) (c : nat) (key : option N) (h : nat),
+    let s := run_ops init ops in
+    In h (picks (snd (select s c key))) ->
+    b_backup (bk s h) = true -> can_open (s_now s) (bk s h) = true ->
+    forall p, In p (c_list (cget s c)) -> b_backup (bk s p) = false -> can_open (s_now s) (bk s p) = false.
+Proof. intros ops c key h s. exact (backup_only_when_no_primary_lemma s c key h). Qed.
+
+(** 3. Sticky: when the (first) backend of the cluster carrying the sticky id
+    can open, it is the one returned; and whatever is returned is in the
+    cluster, carries the id and can open. *)
+Theorem sticky_wins :
+  forall (ops : list op) (c : nat) (sid : N) (h : nat),
+    let s := run_ops init ops in
+    (find (fun h => optN_eqb (b_sticky (bk s h)) sid) (c_list (cget s c)) = Some h ->
+     can_open (s_now s) (bk s h) = true -> find_sticky s c sid = Some h) /\
+    (find_sticky s c sid = Some h ->
+     In h (c_list (cget s c)) /\ b_sticky (bk s h) = Some sid /\ can_open (s_now s) (bk s h) = true).
+Proof.
+  intros ops c sid h s. split.
+  - exact (sticky_wins_lemma s c sid h).
+  - exact (sticky_sound_lemma s c sid h).
+Qed.
+
+(** 4. Affinity: for HRW and for Maglev with a built table, two states with
+    the same policy object (no rebuild in between), the same key and the same
+    candidate list (same addresses and weights; anything else — counters,
+    health of the others, the clock — may differ) select the same backend, and
+    the selection leaves the policy object unchanged (so it can be repeated). *)
+Theorem affinity_stable :
+  forall (s s' : state) (p : policy) (k : N) (cands : list nat),
+    affine p -> same_on s s' cands ->
+    lb_next s p (Some k) cands = lb_next s' p (Some k) cands /\
+    fst (lb_next s p (Some k) cands) = p.
+Proof. exact affinity_stable_lemma. Qed.
+
+(** 5. Maglev table.  Full statement (design): after [rebuild] on a non-empty
+    set with a prime size, [length table = size], *every* slot is filled with an
+    index [< length addrs], and the population loop ends within its fuel.
+    Proved here: the size is kept, the table is empty or exactly [size] long,
+    [addrs] are exactly the addresses of the set just passed in (a removed
+    address is gone after the rebuild that [remove_backend] triggers), every
+    filled slot indexes [addrs] in range, and the lookup only ever returns one
+    of the candidates it was handed.  Missing for the full statement: that no
+    slot stays unfilled (termination of the population loop within [m] passes,
+    which needs [skip] coprime with the prime [m]); an unfilled slot is skipped
+    by the lookup, so eligibility does not depend on it. *)
+Theorem maglev_table_total_partial :
+  forall hashes size aw,
+    let mg := maglev_rebuild hashes size aw in
+    m_size mg = size /\
+    (m_table mg = [] \/ (length (m_table mg) = N.to_nat size /\ m_addrs mg = map fst aw)) /\
+    Forall (entry_ok (length (m_addrs mg))) (m_table mg).
+Proof. exact maglev_rebuild_valid. Qed.
+
+Theorem maglev_lookup_returns_candidate :
+  forall mg a cands start fuel i h,
+    maglev_probe mg a cands start i fuel = Some h -> In h cands.
+Proof. intros. eapply maglev_probe_in; eauto. Qed.
+
+(** 6. Counters: over any history of inc / dec / set_closing on one (shared)
+    backend in which only held connections are closed, [active_connections]
+    always equals the number of connections actually open on it (so it is back
+    to 0 when traffic ends, never negative, never drifting) and a [Closed]
+    backend has none; a [Closing] backend becomes [Closed] exactly at 0; an
+    unmatched decrement saturates instead of wrapping. *)
+Theorem counters_balance :
+  forall (ops : list cop) (b : backend),
+    b_conns b = 0 -> b_status b = Normal ->
+    disciplined (b, 0) ops ->
+    let '(b', open) := fold_left cstep ops (b, 0) in
+    b_conns b' = open /\ (b_status b' = Closed -> b_conns b' = 0).
+Proof.
+  intros ops b Hc Hs Hd.
+  pose proof (counters_balance_lemma ops (b, 0)) as H.
+  destruct (fold_left cstep ops (b, 0)) as [b' g]. apply H; [|assumption].
+  split; cbn [fst snd]; [assumption|]. rewrite Hs. discriminate.
+Qed.
+
+Theorem closing_becomes_closed_exactly_at_zero :
+  forall b, b_status b = Closing ->
+    (b_status (fst (dec_connections b)) = Closed <-> b_conns (fst (dec_connections b)) = 0) /\
+    (b_status (fst (dec_connections b)) = Closed \/ b_status (fst (dec_connections b)) = Closing).
+Proof. exact closing_retires_at_zero. Qed.
+
+Theorem decrement_never_underflows :
+  forall b, b_conns (fst (dec_connections b)) = b_conns b - 1 \/ b_conns (fst (dec_connections b)) = b_conns b.
+Proof. exact dec_never_underflows. Qed.
+
+(** 7. Back-off: a failure outside a window opens one of the drawn length [w]:
+    for its whole duration the backend cannot open, it can again exactly when
+    it ends, a failure inside the window changes nothing, and the try counter
+    saturates at its maximum. *)
+Theorem backoff_window :
+  forall (b : backend) (t w t' : N),
+    can_try (b_retry b) t = true ->
+    let b' := set_retry b (retry_fail (b_retry b) t w) in
+    (t <= t' -> t' < t + w -> can_open t' b' = false) /\
+    (t + w <= t' -> can_try (b_retry b') t' = true) /\
+    (forall w2, t <= t' -> t' < t + w -> retry_fail (b_retry b') t' w2 = b_retry b') /\
+    (r_tries (b_retry b) <= r_max (b_retry b) ->
+     r_tries (b_retry b') = N.min (r_tries (b_retry b) + 1) (r_max (b_retry b)) /\
+     r_tries (b_retry b') <= r_max (b_retry b')).
+Proof.
+  intros b t w t' H b'. unfold b'. cbn [b_retry set_retry]. repeat split.
+  - intros H1 H2. apply can_open_in_window. cbn [b_retry]. apply backoff_window_lemma; auto.
+  - intros H1. apply backoff_window_ends; auto.
+  - intros w2 H1 H2. apply fail_in_window_noop. apply backoff_window_lemma; auto.
+  - destruct (tries_saturate (b_retry b) t w H0) as (_ & _ & E). apply E; auto.
+  - destruct (tries_saturate (b_retry b) t w H0) as (E & _ & _). exact E.
+Qed.
+
+(* ------------------------------------------------------------------ *)
+(** non-vacuity: concrete reachable states on which the hypotheses hold *)
+
+Definition demo_ops : list op :=
+  [ OPolicy 0 KRr MConn 0;
+    OAdd 0 0 0 (Some 1) None false;       (* h0 primary, sticky 1 *)
+    OAdd 0 1 1 None None true;            (* h1 backup *)
+    OAdd 0 2 2 None (Some 5%Z) false ].   (* h2 primary *)
+
+Example selected_is_eligible_nonvacuous :
+  picks (snd (select (run_ops init demo_ops) 0 None)) = [0%nat]
+  /\ (* primaries unhealthy: the backup is used *)
+  picks (snd (select (run_ops init (demo_ops ++ [OHealth 0 0 false 1; OHealth 0 2 false 1])) 0 None)) = [1%nat]
+  /\ (* everybody unhealthy: fail-open over the Normal, non-backing-off ones *)
+  picks (snd (select (run_ops init (demo_ops ++ [OHealth 0 0 false 1; OHealth 0 2 false 1; OHealth 0 1 false 1; OFail 2 3])) 0 None)) = [0%nat]
+  /\ (* Random: the whole eligible set *)
+  picks (snd (select (run_ops init (demo_ops ++ [OPolicy 0 KRandom MConn 0])) 0 None)) = [0%nat; 2%nat].
+Proof. vm_compute. repeat split. Qed.
+
+Example sticky_wins_nonvacuous :
+  find_sticky (run_ops init demo_ops) 0 1 = Some 0%nat /\
+  find_sticky (run_ops init (demo_ops ++ [OFail 0 2])) 0 1 = None.
+Proof. vm_compute. split; reflexivity. Qed.
+
+Example affinity_stable_nonvacuous :
+  let s := run_ops init (OHash 0 3 5 :: OHash 1 4 9 :: OHash 2 6 2 :: demo_ops ++ [OPolicy 0 KMaglev MConn 7]) in
+  affine (c_lb (cget s 0)) /\
+  m_table (match c_lb (cget s 0) with PMaglev mg _ => mg | _ => mkM 0 [] [] end)
+  = [Some 0; Some 1; Some 0; Some 0; Some 1; Some 1; Some 0]%nat /\
+  picks (snd (select s 0 (Some 12))) = [0%nat].
+Proof. vm_compute. repeat split. discriminate. Qed.
+
+Example counters_balance_nonvacuous :
+  let ops := [CInc; CInc; CClosing; CInc; CDec; CDec] in
+  let b := backend_new 0 0 None None false 0 in
+  disciplined (b, 0) ops /\
+  b_status (fst (fold_left cstep ops (b, 0))) = Closed /\ snd (fold_left cstep ops (b, 0)) = 0.
+Proof. vm_compute. repeat split; intros; try discriminate; reflexivity. Qed.
+
+Example backoff_window_nonvacuous :
+  let b := backend_new 0 0 None None false 0 in
+  can_try (b_retry b) 10 = true /\
+  can_open 12 (set_retry b (retry_fail (b_retry b) 10 3)) = false /\
+  can_open 13 (set_retry b (retry_fail (b_retry b) 10 3)) = true.
+Proof. vm_compute. repeat split. Qed.
